@@ -100,8 +100,24 @@ class Driver:
         ref = (r[0], r[1])
         self.impl_calls = si.calls
         self.ref_calls = sr.calls
+        self.impl_raised = si.raised
         self.last = (impl, ref, r[2])
         return impl, ref
+
+    def build_impl_only(self, prog, versions=None):
+        """Run the implementation alone (twin runs); returns (outcome, calls)."""
+        w = self.w
+        si = Side(w, w.fs, False, prog)
+        if not w.bound:
+            w.bind()
+        try:
+            v = self.FileBuilder.build_versioned(
+                w.cache, self.build_name, versions or {}, lambda b: run_body(b, prog.body, si))
+            return ('ok', v), si.calls
+        except (PathAbort, HarnessError):
+            raise
+        except Exception as e:
+            return ('exc', e), si.calls
 
     def clean(self):
         w = self.w
@@ -124,7 +140,8 @@ class Driver:
         them into the reference tree so later steps stay comparable."""
         w = self.w
         for d in sorted(self.state.created_dirs, key=len):
-            if w.ref.kind(d) == ABSENT and w.fs.kind(d) == DIR and not w.fs.children(d):
+            if w.ref.kind(d) == ABSENT and w.fs.kind(d) == DIR:
+                # anything else inside it shows up as a tree difference
                 if w.ref.kind(posixpath.dirname(d)) == DIR:
                     w.ref.add_dir(d)
 
